@@ -1,7 +1,417 @@
-import Rv.Model.AccessorsShape
+/-
+C15 — typed reply accessors never panic and propagate errors.
+
+Model: Rv/Model/Accessors.lean + AccessorsShape.lean (the repaired message.go /
+helper.go, every index/slice an explicit `.panic` arm). The theorems quantify over
+ALL `Msg` trees (a superset of what the decoder produces: any type byte, any
+string, any intlen, any children incl. odd-length maps and empty aggregates, any
+attributes), over all float/JSON oracles `fp`/`jp`, and over all error texts.
+-/
+import Rv.Lemmas.AccPanic
+import Rv.Lemmas.AccClass
+import Rv.Spec.Shapes
 namespace Rv.C15
-open Rv Rv.Acc
-theorem toStr_never_panics (m : Msg) : toStr m ≠ .panic := by
-  unfold toStr; repeat' split
-  all_goals simp
+open Rv Rv.Acc Rv.Shapes
+
+/-! ## 1. no accessor panics -/
+
+/-- "no accessor of the RedisMessage method set panics on `m`" -/
+structure NoPanic (fp : FP) (m : Msg) : Prop where
+  toString : toStr m ≠ .panic
+  asReader : asBytes m ≠ .panic
+  asBytes : asBytes m ≠ .panic
+  decodeJSON : decodeJSON m ≠ .panic
+  asInt64 : asInt64 m ≠ .panic
+  asUint64 : asUint64 m ≠ .panic
+  asBool : asBool m ≠ .panic
+  asFloat64 : asFloat64 fp m ≠ .panic
+  toInt64 : toInt64 m ≠ .panic
+  toBool : Acc.toBool m ≠ .panic
+  toFloat64 : toFloat64 fp m ≠ .panic
+  toArray : toArray m ≠ .panic
+  asStrSlice : asStrSlice m ≠ .panic
+  asIntSlice : asIntSlice m ≠ .panic
+  asFloatSlice : asFloatSlice fp m ≠ .panic
+  asBoolSlice : asBoolSlice m ≠ .panic
+  asXRangeEntry : asXRangeEntry m ≠ .panic
+  asXRange : asXRange m ≠ .panic
+  asXRead : asXRead m ≠ .panic
+  asXRangeSlice : asXRangeSlice m ≠ .panic
+  asXRangeSlices : asXRangeSlices m ≠ .panic
+  asXReadSlices : asXReadSlices m ≠ .panic
+  asZScore : asZScore fp m ≠ .panic
+  asZScores : asZScores fp m ≠ .panic
+  asScanEntry : asScanEntry m ≠ .panic
+  asMap : asMap m ≠ .panic
+  asStrMap : asStrMap m ≠ .panic
+  asIntMap : asIntMap m ≠ .panic
+  asLMPop : asLMPop m ≠ .panic
+  asZMPop : asZMPop fp m ≠ .panic
+  asFtSearch : asFtSearch fp m ≠ .panic
+  asFtAggregate : asFtAggregate m ≠ .panic
+  asFtAggregateCursor : asFtAggregateCursor m ≠ .panic
+  asGeosearch : asGeosearch fp m ≠ .panic
+  toMap : toMap m ≠ .panic
+  toAny : toAny fp m ≠ .panic
+  error : errorRes m ≠ .panic
+
+/-- Every RedisMessage accessor returns a value or an error on every reply tree. -/
+theorem accessors_never_panic (fp : FP) (m : Msg) : NoPanic fp m where
+  toString := toStr_np m
+  asReader := asBytes_np m
+  asBytes := asBytes_np m
+  decodeJSON := decodeJSON_np m
+  asInt64 := asInt64_np m
+  asUint64 := asUint64_np m
+  asBool := asBool_np m
+  asFloat64 := asFloat64_np fp m
+  toInt64 := toInt64_np m
+  toBool := toBool_np m
+  toFloat64 := toFloat64_np fp m
+  toArray := toArray_np m
+  asStrSlice := asStrSlice_np m
+  asIntSlice := asIntSlice_np m
+  asFloatSlice := asFloatSlice_np fp m
+  asBoolSlice := asBoolSlice_np m
+  asXRangeEntry := asXRangeEntry_np m
+  asXRange := asXRange_np m
+  asXRead := asXRead_np m
+  asXRangeSlice := asXRangeSlice_np m
+  asXRangeSlices := asXRangeSlices_np m
+  asXReadSlices := asXReadSlices_np m
+  asZScore := asZScore_np fp m
+  asZScores := asZScores_np fp m
+  asScanEntry := asScanEntry_np m
+  asMap := asMap_np m
+  asStrMap := asStrMap_np m
+  asIntMap := asIntMap_np m
+  asLMPop := asLMPop_np m
+  asZMPop := asZMPop_np fp m
+  asFtSearch := asFtSearch_np fp m
+  asFtAggregate := asFtAggregate_np m
+  asFtAggregateCursor := asFtAggregateCursor_np m
+  asGeosearch := asGeosearch_np fp m
+  toMap := toMap_np m
+  toAny := toAny_np fp m
+  error := by unfold errorRes; split <;> simp
+
+/-- The RedisResult form of any accessor does not panic either, whatever the result error is. -/
+theorem result_accessors_never_panic {α} (acc : Msg → Res α) (h : ∀ m, acc m ≠ .panic)
+    (rerr : Option String) (m : Msg) : wrap acc rerr m ≠ .panic :=
+  wrap_np acc rerr m (h m)
+
+/-- DecodeSliceOfJSON (helper.go) never panics, for any JSON oracle and any result error. -/
+theorem decodeSliceOfJSON_never_panics (jp : JP) (rerr : Option String) (m : Msg) :
+    decodeSliceOfJSON jp rerr m ≠ .panic :=
+  decodeSliceOfJSON_np jp rerr m
+
+/-- the `.panic` arms are real: without the evenness guard the pair loop reads past the end … -/
+example (k : Msg) : strPairs [k] = .panic := rfl
+example (k : Msg) : toMapPairs [k] = .panic := rfl
+example (fp : FP) (k : Msg) : toAnyPairs fp [k] = .panic := by simp [toAnyPairs]
+/-- … and the code before the repair did panic on `[[]]` (AsGeosearch, `info[0]`). -/
+theorem old_geosearch_panics (fp : FP) :
+    geoElemOld fp (Msg.agg tArray []) = .panic := by
+  simp [geoElemOld, isString, Msg.agg, Msg.typ, Msg.arr, idx, tArray, tBlob, tSimple]
+
+/-! ## 2. a non-nil result error is propagated unchanged -/
+
+/-- `RedisResult.X()` with `r.err != nil` returns exactly `r.err`. -/
+theorem result_error_propagates {α} (acc : Msg → Res α) (e : String) (m : Msg) :
+    wrap acc (some e) m = .err e := rfl
+
+/-- `RedisResult.X()` with a nil error is `RedisMessage.X()`. -/
+theorem result_delegates {α} (acc : Msg → Res α) (m : Msg) : wrap acc none m = acc m := rfl
+
+theorem decodeSliceOfJSON_error_propagates (jp : JP) (e : String) (m : Msg) :
+    decodeSliceOfJSON jp (some e) m = .err e := rfl
+
+/-! ## 3. null and error replies -/
+
+/-- all accessors answer the error `e` -/
+structure AllErr (fp : FP) (m : Msg) (e : String) : Prop where
+  toString : toStr m = .err e
+  asBytes : asBytes m = .err e
+  decodeJSON : decodeJSON m = .err e
+  asInt64 : asInt64 m = .err e
+  asUint64 : asUint64 m = .err e
+  asBool : asBool m = .err e
+  asFloat64 : asFloat64 fp m = .err e
+  toInt64 : toInt64 m = .err e
+  toBool : Acc.toBool m = .err e
+  toFloat64 : toFloat64 fp m = .err e
+  toArray : toArray m = .err e
+  asStrSlice : asStrSlice m = .err e
+  asIntSlice : asIntSlice m = .err e
+  asFloatSlice : asFloatSlice fp m = .err e
+  asBoolSlice : asBoolSlice m = .err e
+  asXRangeEntry : asXRangeEntry m = .err e
+  asXRange : asXRange m = .err e
+  asXRead : asXRead m = .err e
+  asXRangeSlice : asXRangeSlice m = .err e
+  asXRangeSlices : asXRangeSlices m = .err e
+  asXReadSlices : asXReadSlices m = .err e
+  asZScore : asZScore fp m = .err e
+  asZScores : asZScores fp m = .err e
+  asScanEntry : asScanEntry m = .err e
+  asMap : asMap m = .err e
+  asStrMap : asStrMap m = .err e
+  asIntMap : asIntMap m = .err e
+  asLMPop : asLMPop m = .err e
+  asZMPop : asZMPop fp m = .err e
+  asFtSearch : asFtSearch fp m = .err e
+  asFtAggregate : asFtAggregate m = .err e
+  asFtAggregateCursor : asFtAggregateCursor m = .err e
+  asGeosearch : asGeosearch fp m = .err e
+  toMap : toMap m = .err e
+  toAny : toAny fp m = .err e
+  error : errorRes m = .err e
+
+private theorem toAny_err (fp : FP) (m : Msg) (e : String) (he : errOf m = some e) : toAny fp m = .err e := by
+  cases m with
+  | mk t s i xs a =>
+    simp only [errOf, Msg.typ, Msg.str] at he
+    rw [toAny]
+    by_cases h1 : t = tNull
+    · simp_all
+    · by_cases h2 : t = tErr ∨ t = tBlobErr
+      · simp_all
+      · simp [h1, h2] at he
+
+private theorem allErr_of (fp : FP) (m : Msg) (e : String) (he : errOf m = some e)
+    (hs : ¬ isString m) (hi : m.typ ≠ tInt) (hf : m.typ ≠ tFloat) (hb : m.typ ≠ tBool)
+    (ha : ¬ isArray m) (hm : ¬ isMap m) (hh : ¬ hasArray m) : AllErr fp m e := by
+  have hts : toStr m = .err e := by simp [toStr, hs, hi, hh, he]
+  have hta : toArray m = .err e := by simp [toArray, ha, errOrParse, he]
+  constructor
+  · exact hts
+  · exact hts
+  · exact hts
+  · simp [asInt64, hi, hts]
+  · simp [asUint64, hi, hts]
+  · simp [asBool, he]
+  · simp [asFloat64, hf, hts]
+  · simp [toInt64, hi, errOrParse, he]
+  · simp [Acc.toBool, hb, errOrParse, he]
+  · simp [toFloat64, hf, errOrParse, he]
+  · exact hta
+  · simp [asStrSlice, hta]
+  · simp [asIntSlice, hta]
+  · simp [asFloatSlice, hta]
+  · simp [asBoolSlice, hta]
+  · simp [asXRangeEntry, hta]
+  · simp [asXRange, hta]
+  · simp [asXRead, xreadWith, he]
+  · simp [asXRangeSlice, hta]
+  · simp [asXRangeSlices, hta]
+  · simp [asXReadSlices, xreadWith, he]
+  · simp [asZScore, hta]
+  · simp [asZScores, hta]
+  · simp [asScanEntry, hta]
+  · simp [asMap, he]
+  · simp [asStrMap, he]
+  · simp [asIntMap, he]
+  · simp [asLMPop, popWith, he]
+  · simp [asZMPop, popWith, he]
+  · simp [asFtSearch, he]
+  · simp [asFtAggregate, he]
+  · simp [asFtAggregateCursor, ha, asFtAggregate, he]
+  · simp [asGeosearch, hta]
+  · simp [toMap, hm, errOrParse, he]
+  · exact toAny_err fp m e he
+  · simp [errorRes, he]
+
+/-- A null reply (`_`, or the RESP2 `$-1` / `*-1`) makes every accessor return the `Nil` error. -/
+theorem nil_is_Nil (fp : FP) (m : Msg) (h : m.typ = tNull) (hleaf : m.arr = []) : AllErr fp m eNil := by
+  apply allErr_of
+  · simp [errOf, h]
+  all_goals simp [isString, isArray, isMap, hasArray, isAggTyp, h, hleaf, tNull, tBlob, tSimple, tInt, tFloat, tBool,
+      tArray, tMap, tSet, tPush, tAttr]
+
+/-- A simple (`-`) or blob (`!`) error reply makes every accessor return a RedisError carrying the
+    reply's text (minus a leading "ERR "). -/
+theorem err_is_RedisError (fp : FP) (m : Msg) (h : m.typ = tErr ∨ m.typ = tBlobErr) (hleaf : m.arr = []) :
+    AllErr fp m (eRedis (trimErr m.str)) := by
+  apply allErr_of
+  · rcases h with h | h <;> simp [errOf, h, tErr, tBlobErr, tNull]
+  all_goals
+    rcases h with h | h <;>
+    simp [isString, isArray, isMap, hasArray, isAggTyp, h, hleaf, tErr, tBlobErr, tBlob, tSimple, tInt, tFloat, tBool,
+      tArray, tMap, tSet, tPush, tAttr]
+
+/-- non-vacuity of the two hypotheses -/
+example : (Msg.null).typ = tNull ∧ (Msg.null).arr = [] := ⟨rfl, rfl⟩
+
+/-! ## 4. wrong shape: which error class -/
+
+/-- ToInt64 / ToBool / ToFloat64 / ToArray / ToMap on a non-error reply of another type: parse error. -/
+theorem wrong_shape_is_parse_error_strict (fp : FP) (m : Msg) (hne : errOf m = none) :
+    (m.typ ≠ tInt → toInt64 m = .err eParse) ∧
+    (m.typ ≠ tBool → Acc.toBool m = .err eParse) ∧
+    (m.typ ≠ tFloat → toFloat64 fp m = .err eParse) ∧
+    (¬ isArray m → toArray m = .err eParse) ∧
+    (¬ isMap m → toMap m = .err eParse) := by
+  refine ⟨?_, ?_, ?_, ?_, ?_⟩ <;> intro h <;> simp [toInt64, Acc.toBool, toFloat64, toArray, toMap, errOrParse, hne, h]
+
+/-- ToString (and AsReader / AsBytes / DecodeJSON, AsInt64 / AsUint64 / AsFloat64 through it):
+    an integer or an aggregate is a parse error; every other non-error leaf type (double, boolean,
+    verbatim string, big number) is handed out as its text. -/
+theorem toString_classes (m : Msg) (hs : ¬ isString m) :
+    ((m.typ = tInt ∨ hasArray m) → toStr m = .err eParse) ∧
+    (m.typ ≠ tInt → ¬ hasArray m → errOf m = none → toStr m = .ok m.str) := by
+  constructor
+  · intro h; simp [toStr, hs, h]
+  · intro h1 h2 h3; simp [toStr, hs, h1, h2, h3]
+
+/-- every accessor that starts with ToArray gives a parse error on a non-error, non-array/set reply -/
+theorem wrong_shape_is_parse_error_arrays (fp : FP) (m : Msg) (hne : errOf m = none) (h : ¬ isArray m) :
+    asStrSlice m = .err eParse ∧ asIntSlice m = .err eParse ∧ asFloatSlice fp m = .err eParse ∧
+    asBoolSlice m = .err eParse ∧ asXRangeEntry m = .err eParse ∧ asXRange m = .err eParse ∧
+    asXRangeSlice m = .err eParse ∧ asXRangeSlices m = .err eParse ∧ asZScore fp m = .err eParse ∧
+    asZScores fp m = .err eParse ∧ asScanEntry m = .err eParse ∧ asGeosearch fp m = .err eParse := by
+  have hta : toArray m = .err eParse := by simp [toArray, errOrParse, hne, h]
+  simp [asStrSlice, asIntSlice, asFloatSlice, asBoolSlice, asXRangeEntry, asXRange, asXRangeSlice, asXRangeSlices,
+    asZScore, asZScores, asScanEntry, asGeosearch, hta]
+
+/-- the map family: anything that is not a map / array / set of even length is a parse error
+    (this includes odd-length streamed maps) -/
+theorem wrong_shape_is_parse_error_maps (m : Msg) (hne : errOf m = none) (h : ¬ mapLike m) :
+    asMap m = .err eParse ∧ asStrMap m = .err eParse ∧ asIntMap m = .err eParse := by
+  simp [asMap, asStrMap, asIntMap, hne, h]
+
+/-- odd-length (streamed, cut short) maps are a parse error in every accessor that walks pairs -/
+theorem odd_map_is_parse_error (fp : FP) (m : Msg) (ht : m.typ = tMap) (hodd : m.arr.length % 2 ≠ 0) :
+    toMap m = .err eParse ∧ asMap m = .err eParse ∧ asStrMap m = .err eParse ∧ asIntMap m = .err eParse ∧
+    asXRead m = .err eParse ∧ asXReadSlices m = .err eParse ∧ toAny fp m = .err eParse ∧
+    asFtSearch fp m = .err eParse ∧ asFtAggregate m = .err eParse := by
+  have hne : errOf m = none := by simp [errOf, ht, tMap, tNull, tErr, tBlobErr]
+  have hm : isMap m := ht
+  have hml : ¬ mapLike m := by simp [mapLike, hodd]
+  refine ⟨?_, ?_, ?_, ?_, ?_, ?_, ?_, ?_, ?_⟩
+  · simp [toMap, hm, toMapV, hodd]
+  · simp [asMap, hne, hml]
+  · simp [asStrMap, hne, hml]
+  · simp [asIntMap, hne, hml]
+  · simp [asXRead, xreadWith, hne, hm, hodd]
+  · simp [asXReadSlices, xreadWith, hne, hm, hodd]
+  · cases m with
+    | mk t s i xs a =>
+      simp only [Msg.typ, Msg.arr] at ht hodd
+      subst ht
+      rw [toAny]; simp [tMap, tNull, tErr, tBlobErr, tFloat, tBlob, tSimple, tVerbatim, tBig, tBool, tInt, hodd]
+  · simp [asFtSearch, hne, hm, hodd]
+  · simp [asFtAggregate, hne, hm, hodd]
+
+/-- the remaining helpers: too short / wrong type -/
+theorem wrong_shape_is_parse_error_helpers (fp : FP) (m : Msg) (hne : errOf m = none) :
+    (¬ isMap m → ¬ isArray m → asXRead m = .err eParse ∧ asXReadSlices m = .err eParse) ∧
+    (m.arr.length < 2 → asLMPop m = .err eParse ∧ asZMPop fp m = .err eParse) ∧
+    (isArray m → m.arr.length < 2 → asScanEntry m = .err eParse) ∧
+    (¬ isMap m → m.arr = [] → asFtSearch fp m = .err eParse ∧ asFtAggregate m = .err eParse ∧
+      asFtAggregateCursor m = .err eParse) := by
+  refine ⟨?_, ?_, ?_, ?_⟩
+  · intro h1 h2; simp [asXRead, asXReadSlices, xreadWith, hne, h1, h2]
+  · intro h
+    have : ¬ m.arr.length ≥ 2 := by omega
+    simp [asLMPop, asZMPop, popWith, hne, this]
+  · intro h1 h2
+    have : ¬ m.arr.length ≥ 2 := by omega
+    simp [asScanEntry, toArray, h1, this]
+  · intro h1 h2
+    have h3 : asFtAggregate m = .err eParse := by simp [asFtAggregate, hne, h1, h2]
+    refine ⟨by simp [asFtSearch, hne, h1, h2], h3, ?_⟩
+    simp [asFtAggregateCursor, h2, h3]
+
+/-- AsGeosearch (repaired): a location that is neither a string nor a non-empty aggregate —
+    `[[]]`, `[5]`, `[nil]` — is a parse error. -/
+theorem geosearch_empty_location_is_parse_error (fp : FP) (m v : Msg) (rest : List Msg) (hm : isArray m)
+    (harr : m.arr = v :: rest) (hv : ¬ isString v) (he : v.arr = []) : asGeosearch fp m = .err eParse := by
+  simp [asGeosearch, toArray, hm, harr, mapR, geoElem, hv, he]
+
+/-- AsFtSearch (repaired), RESP2 form: a reply that ends inside a document is a parse error,
+    e.g. `[1, "a", "1", "b"]` (detected as WITHSCORES, the last key has no score). -/
+theorem ftsearch_truncated_is_parse_error :
+    ∀ fp : FP, fp.ok [97] = false → fp.ok [49] = true →
+      asFtSearch fp (Msg.agg tArray [Msg.leafInt tInt 1, Msg.leafStr tSimple [97], Msg.leafStr tSimple [49],
+        Msg.leafStr tSimple [98]]) = .err eParse := by
+  intro fp h1 h2
+  simp [asFtSearch, errOf, isMap, Msg.agg, Msg.leafInt, Msg.leafStr, Msg.typ, Msg.arr, Msg.str, tArray, tNull, tErr,
+    tBlobErr, tMap, tInt, tSimple, idx, ftDetect, h1, h2, ftDocs2, ftDocsKS]
+
+/-- Wrong *lengths* inside the stream / score helpers are reported with a plain error that does
+    NOT wrap the parse error (`fmt.Errorf("got %d, wanted 2")`): the property's "parse error"
+    clause does not hold literally for them. -/
+theorem wrong_len_is_plain_error (fp : FP) (m : Msg) (hm : isArray m) (hl : m.arr.length ≠ 2) :
+    asXRangeEntry m = .err (eGot m.arr.length "wanted") ∧
+    asXRangeSlice m = .err (eGot m.arr.length "wanted") ∧
+    asZScore fp m = .err eZScore := by
+  simp [asXRangeEntry, asXRangeSlice, asZScore, toArray, hm, hl, toZScore]
+
+/-! ## 5. RedisError classifiers, for all error texts -/
+
+/-- IsMoved / IsAsk / IsRedirect never panic, whatever the error text is. -/
+theorem classifiers_never_panic (s : Bytes) :
+    isMoved s ≠ .panic ∧ isAsk s ≠ .panic ∧ isRedirect s ≠ .panic :=
+  ⟨redirectAddr_np _ _ _, redirectAddr_np _ _ _, redirectAddr_np _ _ _⟩
+
+theorem fixIPv6HostPort_never_panics (a : Bytes) : fixIPv6HostPort a ≠ .panic := fixIPv6HostPort_np a
+
+/-- the code before the repair panicked on short texts (`strings.Split(s, " ")[2]`) -/
+theorem old_classifiers_panic :
+    redirectAddrOld sMOVED 2 sMOVED = .panic ∧
+    redirectAddrOld sMOVED 2 (sMOVED ++ [32, 49]) = .panic ∧
+    redirectAddrOld sASK 2 sASK = .panic ∧
+    redirectAddrOld sREDIRECT 1 sREDIRECT = .panic := by
+  refine ⟨?_, ?_, ?_, ?_⟩ <;> rfl
+
+/-- the repaired code answers `("", false)` on exactly those texts -/
+theorem short_redirects_are_false :
+    isMoved sMOVED = .ok ([], false) ∧ isMoved (sMOVED ++ [32, 49]) = .ok ([], false) ∧
+    isAsk sASK = .ok ([], false) ∧ isRedirect sREDIRECT = .ok ([], false) := by
+  refine ⟨?_, ?_, ?_, ?_⟩ <;> rfl
+
+/-- `ok = true` exactly when the text starts with the word and has a `k`-th space-separated field;
+    the address is then that field, normalised. -/
+theorem redirect_iff (pre : Bytes) (k : Nat) (s : Bytes) :
+    (∃ a, redirectAddr pre k s = .ok (a, true)) ↔ (hasPrefix pre s = true ∧ k < (splitOn 32 s).length) := by
+  simp only [redirectAddr]
+  constructor
+  · rintro ⟨a, h⟩
+    split at h
+    · split at h
+      · rename_i h1 h2; exact ⟨h1, h2⟩
+      · simp at h
+    · simp at h
+  · rintro ⟨h1, h2⟩
+    exact ⟨normAddr ((splitOn 32 s)[k]), by simp [h1, h2, idx_lt h2, fixIPv6_eq_normAddr]⟩
+
+/-- … and the address returned is the `k`-th field, normalised as specified (`normAddr`). -/
+theorem redirect_addr (pre : Bytes) (k : Nat) (s : Bytes) (h1 : hasPrefix pre s = true)
+    (h2 : k < (splitOn 32 s).length) : redirectAddr pre k s = .ok (normAddr ((splitOn 32 s)[k]), true) := by
+  simp [redirectAddr, h1, h2, idx_lt h2, fixIPv6_eq_normAddr]
+
+/-- `fixIPv6HostPort` is the specified normalisation, for every address text. -/
+theorem fixIPv6HostPort_spec (a : Bytes) : fixIPv6HostPort a = .ok (normAddr a) := fixIPv6_eq_normAddr a
+
+/-- Texts of the documented form `MOVED <slot> <addr>` / `ASK <slot> <addr>` / `REDIRECT <addr>`
+    (fields without spaces) yield exactly the normalised address. -/
+theorem documented_redirects (slot addr : Bytes) (hs : 32 ∉ slot) (ha : 32 ∉ addr) :
+    isMoved (redirectText sMOVED (some slot) addr) = .ok (normAddr addr, true) ∧
+    isAsk (redirectText sASK (some slot) addr) = .ok (normAddr addr, true) ∧
+    isRedirect (redirectText sREDIRECT none addr) = .ok (normAddr addr, true) :=
+  ⟨redirectAddr_documented_slot _ (by decide) _ hs _ ha, redirectAddr_documented_slot _ (by decide) _ hs _ ha,
+   redirectAddr_documented _ (by decide) _ ha⟩
+
+/-- e.g. a bare IPv6 address gets its brackets -/
+example : normAddr [58, 58, 49, 58, 54, 51, 55, 57] = [91, 58, 58, 49, 93, 58, 54, 51, 55, 57] := by decide
+
+theorem redirect_false_otherwise (pre : Bytes) (k : Nat) (s : Bytes)
+    (h : ¬ (hasPrefix pre s = true ∧ k < (splitOn 32 s).length)) : redirectAddr pre k s = .ok ([], false) := by
+  simp only [redirectAddr]
+  split
+  · split
+    · rename_i h1 h2; exact absurd ⟨h1, h2⟩ h
+    · rfl
+  · rfl
+
 end Rv.C15
